@@ -73,4 +73,8 @@ def run(tier, seed):
             case_kw=dict(cmp=CMP, cmpall=CMP, cmpcb=False, cmpsave=False, cmpres=(mode == "nohandler"), cmpval=False,
                          chk13=mode),
             assumptions=["message texts are compared between runs of the same build, never with constants"])
+    # the same property against the executable model of the host interface (absolute oracle, Tier-S programs with a
+    # zero divisor, a loose end or an undeclared temporary at chosen points; with, without and with a late handler)
+    import hostmodel
+    nviol += hostmodel.check("C13", "errors", tier, seed)
     return nviol
